@@ -160,9 +160,23 @@ func cylinderUVs(mask int, r *rand.Rand) *primitives.CylinderUVs {
 
 func pathPoints(r *rand.Rand, n int) []vector3.Float64 {
 	p := make([]vector3.Float64, n)
-	cls := r.Intn(5)
+	cls := r.Intn(8)
 	for i := range p {
 		switch cls {
+		case 5: // closed loop whose last point repeats the first
+			a := 2 * math.Pi * float64(i) / float64(imax1(n-1))
+			p[i] = vector3.New(math.Cos(a), 0, math.Sin(a))
+			if i == n-1 {
+				p[i] = p[0]
+			}
+		case 6: // collinear run, a turn, another collinear run
+			if i < n/2 {
+				p[i] = vector3.New(float64(i), 0, 0)
+			} else {
+				p[i] = vector3.New(float64(n/2), float64(i-n/2+1), 0)
+			}
+		case 7: // every point the same
+			p[i] = vector3.New(1., 2., 3.)
 		case 0: // straight up
 			p[i] = vector3.New(0, float64(i), 0)
 		case 1: // straight along X (RotationTo antiparallel / parallel edge cases)
@@ -176,6 +190,55 @@ func pathPoints(r *rand.Rand, n int) []vector3.Float64 {
 		}
 	}
 	return p
+}
+
+func imax1(n int) int {
+	if n < 1 {
+		return 1
+	}
+	return n
+}
+
+var outlineClasses = []string{"regular", "explicit closing point (last == first)", "consecutive duplicate points", "collinear runs", "reversed winding",
+	"all points identical", "closing point + duplicates + reversed", "random"}
+
+// outline builds a 2-D outline of n points of a degenerate-but-accepted structure class.
+func outline(r *rand.Rand, n, cls int) []vector2.Float64 {
+	sh := make([]vector2.Float64, n)
+	reg := func(i, m int) vector2.Float64 {
+		a := 2 * math.Pi * float64(i) / float64(imax1(m))
+		return vector2.New(math.Cos(a), math.Sin(a))
+	}
+	for i := range sh {
+		switch cls {
+		case 0:
+			sh[i] = reg(i, n)
+		case 1:
+			sh[i] = reg(i, n-1)
+			if i == n-1 {
+				sh[i] = sh[0]
+			}
+		case 2:
+			sh[i] = reg(i/2, (n+1)/2)
+		case 3: // points along the edges of a square, several per edge
+			per := imax1(n / 4)
+			e, t := (i/per)%4, float64(i%per)/float64(per)
+			c := []vector2.Float64{vector2.New(-1., -1.), vector2.New(1., -1.), vector2.New(1., 1.), vector2.New(-1., 1.)}
+			sh[i] = c[e].Add(c[(e+1)%4].Sub(c[e]).Scale(t))
+		case 4:
+			sh[i] = reg(n-1-i, n)
+		case 5:
+			sh[i] = vector2.New(0.5, 0.5)
+		case 6:
+			sh[i] = reg((n-1-i)/2, (n+1)/2)
+			if i == n-1 {
+				sh[i] = sh[0]
+			}
+		default:
+			sh[i] = vector2.New(r.Float64()*2-1, r.Float64()*2-1)
+		}
+	}
+	return sh
 }
 
 // Families is the generator table of phase (a).
@@ -432,6 +495,12 @@ func buildFamilies() []family {
 				for i := range pts {
 					pts[i] = vector3.New(float64(i), r.Float64(), r.Float64()*2)
 				}
+				if r.Intn(4) == 0 { // duplicate control point
+					pts[1] = pts[0]
+				}
+				if r.Intn(4) == 0 { // closed control polygon
+					pts[npts-1] = pts[0]
+				}
 				sp := curves.CatmullRomSplineParameters{Points: pts, Alpha: 0.5}.Spline()
 				c := extrude.CircleAlongSpline{CircleResolution: cres, Radius: 0.3, Spline: &sp, SplineResolution: sres}
 				if radii {
@@ -504,6 +573,30 @@ func buildFamilies() []family {
 				return shape(closed, 1+r.Intn(mx), 2+r.Intn(mx), r.Int63())
 			}})
 	}
+	dshape := func(closed bool, cls, ns, np int, seed int64) param {
+		kind := "Shape"
+		if closed {
+			kind = "ClosedShape"
+		}
+		return param{desc: fmt.Sprintf("extrude.%s(outline %q of %d points, %d path points, seed %d)", kind, outlineClasses[cls], ns, np, seed),
+			bucket: fmt.Sprintf("%s o%d s%s p%s", kind, cls, bucketInt(ns), bucketInt(np)), run: func() []modeling.Mesh {
+				r := rand.New(rand.NewSource(seed))
+				sh := outline(r, ns, cls)
+				path := pathPoints(r, np)
+				if closed {
+					return []modeling.Mesh{extrude.ClosedShape(sh, path)}
+				}
+				return []modeling.Mesh{extrude.Shape(sh, path)}
+			}}
+	}
+	fs = append(fs, family{name: "extrude.Shape/ClosedShape(degenerate outlines)", gridN: 8 * 4 * 3 * 2,
+		grid: func(k int) param {
+			return dshape(k%2 == 1, (k/2)%8, []int{3, 4, 5, 9}[(k/16)%4], []int{2, 3, 6}[k/64], int64(k))
+		},
+		sample: func(r *rand.Rand, th bool) param {
+			return dshape(r.Intn(2) == 0, r.Intn(8), 2+r.Intn(30), 2+r.Intn(20), r.Int63())
+		}})
+
 	screw := func(nl, seg int, rev, dist float64, uv bool, seed int64) param {
 		return param{desc: fmt.Sprintf("extrude.ScrewNode(%d line points, %d segments, rev %g, dist %g, uv %v, seed %d)", nl, seg, rev, dist, uv, seed),
 			bucket: fmt.Sprintf("l%s s%s %v", bucketInt(nl), bucketInt(seg), uv), run: func() []modeling.Mesh {
@@ -511,6 +604,12 @@ func buildFamilies() []family {
 				l := make([]vector3.Float64, nl)
 				for i := range l {
 					l[i] = vector3.New(0.5+r.Float64(), float64(i)*0.3, 0)
+				}
+				if nl > 1 && r.Intn(3) == 0 { // profile closed explicitly
+					l[nl-1] = l[0]
+				}
+				if nl > 2 && r.Intn(3) == 0 { // consecutive duplicate
+					l[1] = l[0]
 				}
 				nd := extrude.ScrewNodeData{Line: nout(l), Segments: nout(seg), Revolutions: nout(rev), Distance: nout(dist)}
 				if uv {
@@ -610,31 +709,47 @@ func buildFamilies() []family {
 					pts[i] = vector2.New(float64(i), 2*float64(i))
 				case 3: // duplicates
 					pts[i] = vector2.New(float64(r.Intn(3)), float64(r.Intn(3)))
-				default: // on a circle
+				case 4: // on a circle
 					a := 2 * math.Pi * float64(i) / float64(n)
 					pts[i] = vector2.New(math.Cos(a), math.Sin(a)).Scale(ext)
 				}
 			}
+			if cls >= 5 { // an outline of a degenerate-but-accepted structure class used as the point set
+				copy(pts, outline(r, n, cls-4))
+				for i := range pts {
+					pts[i] = pts[i].Scale(ext)
+				}
+			}
 			if constrained {
 				sq := []vector2.Float64{vector2.New(0.2, 0.2).Scale(ext), vector2.New(0.8, 0.2).Scale(ext), vector2.New(0.8, 0.8).Scale(ext), vector2.New(0.2, 0.8).Scale(ext)}
+				switch r.Intn(5) {
+				case 1: // explicit closing point
+					sq = append(sq, sq[0])
+				case 2: // reversed winding
+					sq[1], sq[3] = sq[3], sq[1]
+				case 3: // consecutive duplicates and a collinear midpoint
+					sq = []vector2.Float64{sq[0], sq[0], sq[0].Add(sq[1]).Scale(0.5), sq[1], sq[2], sq[2], sq[3]}
+				case 4: // degenerate: a segment
+					sq = sq[:2]
+				}
 				return []modeling.Mesh{triangulation.ConstrainedBowyerWatson(pts, []triangulation.Constraint{triangulation.NewConstraint(sq)})}
 			}
 			return []modeling.Mesh{triangulation.BowyerWatson(pts)}
 		}}
 	}
-	fs = append(fs, family{name: "triangulation.BowyerWatson", gridN: 9 * 5,
-		grid: func(k int) param { return bw(k%9, k/9, false, int64(k)) }, // 0..8 points (<3 rejected) × 5 classes
+	fs = append(fs, family{name: "triangulation.BowyerWatson", gridN: 9 * 11,
+		grid: func(k int) param { return bw(k%9, k/9, false, int64(k)) }, // 0..8 points (<3 rejected) × 11 classes
 		sample: func(r *rand.Rand, th bool) param {
 			mx := 40
 			if th && r.Intn(10) == 0 {
 				mx = 300
 			}
-			return bw(3+r.Intn(mx), r.Intn(5), false, r.Int63())
+			return bw(3+r.Intn(mx), r.Intn(11), false, r.Int63())
 		}})
-	fs = append(fs, family{name: "triangulation.ConstrainedBowyerWatson", gridN: 9,
-		grid: func(k int) param { return bw(k, 0, true, int64(k)) },
+	fs = append(fs, family{name: "triangulation.ConstrainedBowyerWatson", gridN: 9 * 4,
+		grid: func(k int) param { return bw(k%9, []int{0, 1, 4, 5}[k/9], true, int64(k)) },
 		sample: func(r *rand.Rand, th bool) param {
-			return bw(3+r.Intn(40), []int{0, 0, 1, 4}[r.Intn(4)], true, r.Int63())
+			return bw(3+r.Intn(40), []int{0, 0, 1, 4, 5, 6, 8}[r.Intn(7)], true, r.Int63())
 		}})
 	return fs
 }
